@@ -40,8 +40,8 @@ def origin_of(linemap, line):
         return linemap[line - 1]
     return None
 
-def run_verus(path, extra=None, timeout=600):
-    cmd = [VERUS, path, '--output-json', '--time', '--error-format=json', '--multiple-errors', '20'] + (extra or [])
+def run_verus(path, extra=None, timeout=600, multiple_errors=20):
+    cmd = [VERUS, path, '--output-json', '--time', '--error-format=json', '--multiple-errors', str(multiple_errors)] + (extra or [])
     t0 = time.time()
     try:
         p = subprocess.run(cmd, stdout=subprocess.PIPE, stderr=subprocess.PIPE, timeout=timeout, cwd=os.path.dirname(path))
@@ -215,7 +215,7 @@ def run_unit(name, outdir, repo='/repo', canary=False, contracts=None, extra=Non
     os.makedirs(outdir, exist_ok=True)
     path = os.path.join(outdir, name + ('_canary' if canary else '') + '.rs')
     open(path, 'w').write(text)
-    vr = run_verus(path, extra=extra)
+    vr = run_verus(path, extra=extra, multiple_errors=(1 if canary else 20))
     failures, undecided = analyse(name, vr, linemap, u.report, path)
     j = vr.get('json') or {}
     r = j.get('verification-results', {})
